@@ -16,6 +16,12 @@ CHECKS = {
   text="Every query tree up to depth 2 (quick; depth 3 over a reduced pool in thorough) built from 12 leaves (empty, four patterns sharing variables, seven code templates) with and/or/or+shortCircuit of arity 0..2 and not, is evaluated on every subset of a 4-fact universe, with the facts local or split between the location and its parent, by Location.Query and, wrapped as a rule condition, by ProcessEvent; results (or the error) are compared as multisets with a 60-line reference evaluator written from the property statement.",
   note="Trusts core.Matches for fact matching (C05) and the native evaluation of the seven code templates in the reference. Bounded tree depth/arity.",
   design="2/C03"),
+ "C07": dict(
+  engine="SEQ",
+  technique="explicit-state model checking under a harness-owned virtual clock: exhaustive BFS over write / clock-advance / reload / observe sequences, state-hash dedup, reference-model oracle",
+  text="For 6 expiry encodings x {fact, rule} x {indexed, linear}: every sequence (depth 5 quick / 7 thorough; the reachable canonical state space is exhausted before the bound) over write, write-already-expired, advancing the virtual clock to 9 instants around the expiry (including E-1ns and E), reload from storage, GetFact/GetRule, SearchFacts, SearchRules and ProcessEvent; the expiry instant is read back, bounded against now+ttl and required never to move; visibility must flip exactly at E; observed-expired items must be gone from storage; already-expired writes must be refused without trace.",
+  note="Trusts that every clock read goes through the rewritten `time` import (instr reports all swaps). Rules with an RFC3339 string expires are outside AddRule's input domain (Rule.Expires is numeric) and not explored.",
+  design="2/C07"),
  "C05": dict(
   engine="GEN",
   technique="bounded-exhaustive enumeration of (pattern, datum, bindings) triples x owned map-iteration orders on the real matcher against an independent reference matcher",
